@@ -123,6 +123,7 @@ type Sim struct {
 	confGen       int
 	pendingReload *model.Topo
 	lastBindPod   string
+	adminReserved map[string]bool // harness's own record of reservations made and not yet undone
 	provFault     bool
 	simExtra
 }
@@ -168,6 +169,7 @@ func NewSim(rng *rand.Rand, caseID string, withProvider, withTApp bool) (*Sim, e
 	s := &Sim{W: w, Topo: t, rng: rng, Pods: map[string]*PodRec{}, caseID: caseID, allocStep: map[string]int{},
 		poolSizes: map[string]int{}, released200: map[string]bool{}, reloadDropped: map[string]bool{}}
 	s.Counts = map[string]int{}
+	s.adminReserved = map[string]bool{}
 	s.replHist = map[string][]int{}
 	s.poolEver = map[string]bool{"pa": true, "pb": true}
 	s.prevPoolCnt, s.prevPoolBound, s.prevPoolHad = map[string]int{}, map[string]int{}, map[string]bool{}
@@ -734,6 +736,9 @@ func (s *Sim) stepReserve() bool {
 	sort.Strings(free)
 	ip := free[s.rng.Intn(len(free))]
 	err := s.W.ReserveFIP(ip, "admin-reserved")
+	if err == nil {
+		s.adminReserved[ip] = true
+	}
 	s.record("reserve", ip, errStr(err))
 	return true
 }
@@ -751,6 +756,7 @@ func (s *Sim) stepUnreserve() bool {
 	}
 	sort.Strings(res)
 	ip := res[s.rng.Intn(len(res))]
+	delete(s.adminReserved, ip)
 	err := s.W.UnreserveFIP(ip)
 	s.record("unreserve", ip, errStr(err))
 	return true
